@@ -438,5 +438,4 @@ theorem contfrac_ok (s : Strategy) (fuel : Nat) (targets c : List Int) (hne : ta
     hsorted (fun x hx => hpos x (hperm.mem_iff.1 hx)) h
   exact ⟨hg.good.isChain, fun x hx => hg.sup x (hperm.mem_iff.2 hx)⟩
 
-#print axioms contfrac_ok
 end P
